@@ -27,6 +27,7 @@ type script struct {
 	GenSeed   uint64   `json:"gen_seed,omitempty"`        // sequences: Payload = genPayload(GenSeed, len)
 	Status    int      `json:"status,omitempty"`          // 0 = 200
 	DeclCL    int      `json:"declared_length,omitempty"` // > len(Served): Content-Length declared, Served written, stream ended cleanly short of it
+	Trailer   string   `json:"trailer,omitempty"`         // value of the X-Sum trailer field sent after the body (no Content-Length then)
 	DropFirst bool     `json:"drop_first,omitempty"`      // h1: the first attempt of an exchange is read and the connection closed unanswered
 	CRange    string   `json:"content_range,omitempty"`   // Content-Range header (206)
 	refTable  map[string]refOut
@@ -103,6 +104,9 @@ func (o *origins) handler(w http.ResponseWriter, r *http.Request) {
 	} else if s.SetCL || r.Method == "HEAD" {
 		h.Set("Content-Length", strconv.Itoa(len(s.Served)))
 	}
+	if s.Trailer != "" {
+		h.Set("Trailer", "X-Sum")
+	}
 	if s.CRange != "" {
 		h.Set("Content-Range", s.CRange)
 	}
@@ -120,6 +124,9 @@ func (o *origins) handler(w http.ResponseWriter, r *http.Request) {
 		}
 	}
 	w.Write(s.Served)
+	if s.Trailer != "" {
+		h.Set("X-Sum", s.Trailer)
+	}
 	if s.DeclCL > 0 {
 		// the handler returns short of the declared length: HTTP/1 closes the connection, HTTP/2 sends
 		// END_STREAM, HTTP/3 FIN - a clean end of the stream, no reset
